@@ -100,5 +100,8 @@ pub fn known_findings() -> Vec<Finding> {
 
 /// `Some(finding)` when the violation identity is a listed, still-open finding
 pub fn match_known<'a>(fs: &'a [Finding], property: &str, identity: &str) -> Option<&'a Finding> {
-    fs.iter().find(|f| f.property == property && f.status == "known" && !f.identity.is_empty() && identity.contains(&f.identity))
+    // `identity` of a finding may list several fragments separated by " && ": all must occur
+    fs.iter().find(|f| {
+        f.property == property && f.status == "known" && !f.identity.is_empty() && f.identity.split(" && ").all(|part| identity.contains(part.trim()))
+    })
 }
